@@ -1,6 +1,9 @@
+import CG.Drv.C01
+import CG.Drv.C04
 import CG.Drv.C19
+import CG.Drv.C20
 /-! GENERATED from the driver modules present in CG/Drv. Do not edit. -/
 namespace CG.Drv
 def allHandlers : List (String → List String → Option String) :=
-  [C19.handle]
+  [C01.handle, C04.handle, C19.handle, C20.handle]
 end CG.Drv
